@@ -19,7 +19,12 @@ def run(chk):
         "cancellation is delivered at the suspension points of the operation, before_sleep and the sleeper (the only "
         "awaits of the async runner besides user callbacks)",
     ]
-    rc.run_runner_check(chk, "C13", "proj_C13", OPTS)
+    ok = chk.check_theorems()
+    rc.run_runner_check(chk, "C13", "proj_C13", OPTS, theorems_ok=ok)
+    if ok:
+        import source_tie
+        source_tie.report(chk, source_tie.loop_tie(chk), "loop",
+                          "scripted call sequences (random, abort sentinels and sweeps): no property violation found")
 
 
 def replay(path):
